@@ -376,10 +376,11 @@ PROPS["C19"] = dict(
     level="fault_enumeration",
     custom="crash",
     technique="crash-point enumeration: the victim process is killed by strace (SIGKILL injected at the k-th file-system effect system call, which is not executed) and the directory is judged by a checker in a new process",
-    rule=("scenario = (operation in {shard flush, consolidation, LocalClient::put, DiskCache::put with eviction, DiskCache::initialize over a dirty directory}) x (prior history in {empty, populated, leftovers of an earlier crash}) "
+    rule=("scenario = (operation in {shard flush, consolidation, LocalClient::put, DiskCache::put with eviction, DiskCache::initialize over a dirty directory}) x (prior history in {empty, populated, leftovers of an earlier crash; for the cache put also: sub-ranges of the key being put already cached, capacity not binding}) "
           "x seed x payload size; pass 1 traces an uninjected run and lists the effect calls (creating/truncating openat, write, pwrite, rename*, unlink*, mkdir*, rmdir, ftruncate, fsync, chmod/chown, link) issued by the operating thread "
           "between two marker calls; pass 2 re-runs the victim from a fresh copy of the prepared directory once per listed call with SIGKILL injected at that call; the checker requires every file under a final name "
-          "(<hash>.mdb, default.<hash>, cache item name) to be complete and consistent with its name, every record retrievable before the operation to be retrievable, and re-open to succeed; "
+          "(<hash>.mdb, default.<hash>, cache item name) to be complete and consistent with its name, every record retrievable before the operation to be retrievable (shard records, stored xorbs; cached chunks where no eviction is possible), and re-open to succeed; "
+          "then the restarted process goes on - a complete consolidation over the directory the crash left (shard operations), the same put again (cache) - and the records must survive that too; "
           "evaluation = one crash point that was actually cut and judged; distinct = (operation, history, size, cut system call, kind of path)"),
     assumptions=["process-crash model: completed system calls persist, no torn page cache (as the property states)", "strace counts when=k per thread; the victims keep the operation's effects on one thread",
                  "the code's random choices (temp names, eviction victim) change the concrete call list from run to run; each injected run is judged on its own trace"],
@@ -388,7 +389,7 @@ PROPS["C19"] = dict(
     max_points=(40, 400),
     gates=dict(evaluations=(400, 5000), distinct=(60, 100),
                counters={"crash_points_flush": (60, 800), "crash_points_consolidate": (40, 500), "crash_points_localput": (100, 1500), "crash_points_cacheput": (60, 800), "crash_points_cacheinit": (12, 150),
-                         "scenarios_with_every_crash_point": (40, 300), "cut_rename": (25, 300), "cut_openat": (40, 500), "cut_write": (150, 2000), "cut_unlink": (25, 300)}),
+                         "scenarios_with_every_crash_point": (40, 300), "cut_rename": (25, 300), "cut_openat": (40, 500), "cut_write": (150, 2000), "cut_unlink": (25, 300), "restart_consolidations_checked": (100, 1500), "pre_readable_cache_chunks_kept": (200, 3000)}),
     exhaustive_note="every effect call of the operating thread between the markers, per scenario (bounded by max_points per scenario)",
 )
 
